@@ -5,7 +5,7 @@
      holds = the byte-FIFO-with-flush-marks specification IO/FifoSpec.v accepts
              the implementation's observations                                *)
 From Coq Require Import List NArith ZArith Arith Bool Uint63.
-From SNT Require Import Base.Outcome Base.Report IO.IOQueue IO.FifoSpec.
+From SNT Require Import Base.Outcome Base.Report IO.IOQueue IO.FifoSpec IO.SegQueue.
 Import ListNotations.
 Local Open Scope N_scope.
 
@@ -161,7 +161,13 @@ Local Open Scope N_scope.
 
 Inductive c16_case :=
 | Q (ops : list cop) (impl : list cobs)
-| QB (ops : list bop) (impl : list bobs).
+| QB (ops : list bop) (impl : list bobs)
+| QS (ops : list sop) (impl : list sobs).
+    (* segment histories (IO/SegQueue.v): the payloads are the consecutive positions of one pattern stream;
+       the harness has verified that the bytes it got equal the pattern over every run it reports *)
+
+Definition swritten (ops : list sop) : N :=
+  fold_left (fun acc o => match o with SWr n => acc + n | _ => acc end) ops 0.
 Definition c16_check (c : c16_case) : bool * bool :=
   match c with
   | Q ops impl =>
@@ -171,6 +177,11 @@ Definition c16_check (c : c16_case) : bool * bool :=
   | QB ops impl =>
       let ops' := map bop_of ops in
       (all2 bobs_ok (trace qempty ops') impl, b_run (fifo0 (A := int)) [] ops' impl)
+  | QS ops impl =>
+      (* agree: the segment model makes the same observations - and, on histories small enough to expand, the
+         byte-level model of IO/IOQueue.v makes them too (the abstraction, evaluated);
+         holds: the specification on runs accepts the implementation's observations *)
+      (s_agree ops impl && (if swritten ops <=? 4096 then abstraction_ok ops else true), s_holds ops impl)
   end.
 
 Definition c16_report := report c16_check.
